@@ -403,6 +403,8 @@ pub struct World {
     pub p_custom_cred: (u32, u32),
     /// chance that a generated key package is marked last-resort
     pub p_last_resort: (u32, u32),
+    /// identity that the group context authorises as external sender (engines that want one)
+    pub ext_signer: Option<(SignatureSecretKey, SigningIdentity)>,
 }
 
 pub struct CommitResult {
@@ -434,6 +436,7 @@ impl World {
             keep_exts: vec![],
             p_custom_cred: (0, 1),
             p_last_resort: (0, 1),
+            ext_signer: None,
         }
     }
 
